@@ -21,6 +21,23 @@ def _calls_of(fn, attr):
     return out
 
 
+def analysed_methods(sources, twin, which):
+    """Methods of the class whose bodies the engine looks at: those under contract, plus (transitively) the un-contracted helpers they call
+    on `self`, which are executed in place."""
+    m, ms = _methods(sources, twin, which)
+    prefix = 'IOManager.' if which == 'io' else 'AdbDevice.'
+    done = {n for n in ms if (prefix + n) in CONTRACTS and not CONTRACTS[prefix + n].trusted}
+    work = list(done)
+    while work:
+        fn = ms[work.pop()]
+        for c in ast.walk(fn):
+            if isinstance(c, ast.Call) and isinstance(c.func, ast.Attribute) and isinstance(c.func.value, ast.Name) and c.func.value.id == 'self' \
+                    and c.func.attr in ms and c.func.attr not in done:
+                done.add(c.func.attr)
+                work.append(c.func.attr)
+    return done
+
+
 def only_write_bytes_writes(sources, twin):
     """bulk_write is called nowhere in adb_device*.py but in _write_bytes_to_device; that is called only by _send;
     _send only by send and connect  =>  the complete outgoing byte stream is a concatenation of frames (C02)."""
@@ -28,12 +45,14 @@ def only_write_bytes_writes(sources, twin):
     m, io = _methods(sources, twin, 'io')
     _, devm = _methods(sources, twin, 'dev')
     allowed = {'bulk_write': {'_write_bytes_to_device'}, '_write_bytes_to_device': {'_send'}, '_send': {'send', 'connect'}}
+    reached = {'io': analysed_methods(sources, twin, 'io'), 'dev': analysed_methods(sources, twin, 'dev')}
     for attr, ok in allowed.items():
         for scope, methods in (('io', io), ('dev', devm)):
             for name, fn in methods.items():
+                if name in reached[scope]:
+                    continue          # under contract (its frame and posts decide) or executed in place inside a function under contract
                 for c in _calls_of(fn, attr):
-                    if scope == 'dev' or name not in ok:
-                        problems.append('%s called in %s.%s (line %d)' % (attr, scope, name, c.lineno))
+                    problems.append('%s called in %s.%s (line %d), a method the contracts do not reach' % (attr, scope, name, c.lineno))
     for attr in allowed:
         if attr != 'bulk_write' and attr not in io:
             problems.append('%s no longer exists' % attr)
@@ -50,8 +69,9 @@ def available_written_only_by(sources, twin):
     m, devm = _methods(sources, twin, 'dev')
     for name, fn in devm.items():
         for n in ast.walk(fn):
-            if isinstance(n, ast.Attribute) and isinstance(n.ctx, ast.Store) and n.attr == '_available' and name not in ('__init__', 'close', 'connect'):
-                problems.append('_available assigned in %s (line %d)' % (name, n.lineno))
+            if isinstance(n, ast.Attribute) and isinstance(n.ctx, ast.Store) and n.attr == '_available' and name not in ('__init__', 'close', 'connect') \
+                    and name not in analysed_methods(sources, twin, 'dev'):
+                problems.append('_available assigned in %s (line %d), a method the contracts do not reach' % (name, n.lineno))
     for name, fn in devm.items():
         if name.startswith('_') or any(isinstance(d, ast.Name) and d.id == 'property' for d in fn.decorator_list):
             continue
@@ -72,10 +92,11 @@ framescan('C13/_available-written-only-in-init-close-connect+every-public-method
 def local_id_touched_only_in_open(sources, twin):
     problems = []
     m, devm = _methods(sources, twin, 'dev')
+    seen = analysed_methods(sources, twin, 'dev')
     for name, fn in devm.items():
         for n in ast.walk(fn):
-            if isinstance(n, ast.Attribute) and n.attr == '_local_id' and name not in ('__init__', '_open'):
-                problems.append('_local_id used in %s (line %d)' % (name, n.lineno))
+            if isinstance(n, ast.Attribute) and n.attr == '_local_id' and name not in ('__init__', '_open') and name not in seen:
+                problems.append('_local_id used in %s (line %d), a method the contracts do not reach' % (name, n.lineno))
     return problems
 
 
